@@ -145,6 +145,7 @@ def mailbox_programs(tier):
     add('children_broadcast_unit', None, {'c1': [('call', A, 'bcastu:1'), ('call', A, 'bcast:2'), ('stop', A)]}, children=(('c1', R, False), ('c2', AC, False)), K=1)
     add('children_two_under_m', None, {'c1': [('call', A, 'bcast:1'), ('call', A, 'bcast:2'), ('drop', A)]}, children=(('c1', R, False), ('c2', R, False)), K=1)
     add('children_sibling_stopped_first', None, {'c1': [('stop', 'c1'), ('ping', 'c1'), ('call', A, 'bcast:1'), ('stop', A)]}, children=(('c1', R, True), ('c2', R, False)), K=1)
+    add('children_sibling_panicked', None, {'c1': [('call', 'c1', 'panic:1'), ('call', A, 'bcast:1'), ('stop', A)]}, children=(('c1', R, True), ('c2', R, False)), K=1)
     add('children_parent_killed', None, {'c1': [('call', A, 'bcast:1'), ('ping', A)]}, children=(('c1', R, False), ('c2', AC, False)), K=1, faults=1)
     add('children_parent_panics', None, {'c1': [('send', 'c1', 'x1'), ('call', A, 'panic:1')]}, children=(('c1', R, True), ('c2', AC, False)), K=1)
     add('children_kept_outside', None, {'c1': [('stop', A), ('call', 'c1', 'x1'), ('drop', 'c1')]}, children=(('c1', AC, True),), K=2)
@@ -200,6 +201,9 @@ def evaluate(tr, status, cap, scripts, spec=None):
         return out
     if spec is not None and spec.get('children'):
         out['C16'] += oracle_children(tr, status, spec)
+        if any(str(op[2]).startswith('panic') and op[1] != 'addr' for sc in scripts.values() for op in sc if len(op) > 2):
+            # C06: a child that died by a fault must not keep its siblings from working ("other actors keep working")
+            out['C06'] += [m for m in out['C16'] if 'never reached' in m]
         out['C02'] += oracle_resolves(tr, status, scripts)
         out['C06'] += [m for m in oracle_containment(tr, status, scripts) if 'callback' not in m]
         return out
